@@ -191,6 +191,15 @@ def gen_plan(rng, run_index, tier, opts):
         if rng.random() < 0.15:
             # other use of the live portfolio between the solve that gave x and the rebuild with the window
             tk["between"] = rng.choice(["to_json", "to_json", "params_tree", "setup_plain", "to_json_assets", "set_timegrid"])
+    # (round 11, drawn after everything else)
+    all_nodes = sorted({world["nodes"][n]["name"] for a in world["portfolios"][P]["assets"] for n in specs.asset_nodes(world, a)})
+    for tk in ticks:
+        if rng.random() < 0.12:
+            tk["positional"] = True          # arguments handed over by position, in the documented order
+        if rng.random() < 0.04 and all_nodes:
+            tk["skip_nodes"] = list(all_nodes)   # no nodal restriction at all (the problem of the assets side by side)
+        if rng.random() < 0.12:
+            tk["report_first"] = True        # the report (extract_output) is drawn up before the desk reads x from the result object
     return plan
 
 
@@ -248,14 +257,22 @@ def merge_split(sop):
 
 
 class Desk:
-    def setup(self, P, pr, g, **kw):
+    def setup(self, P, pr, g, positional=False, **kw):
         """(problem F1-F7 are evaluated on, object the desk optimises)"""
         sp_ = self.plan.get("split")
         if sp_:
-            sop = P.setup_split_optim_problem(pr, g, interval_size=sp_["interval_size"], **kw)
+            if positional:
+                # (prices, timegrid, interval_size, skip_nodes, fix_time_window) - the documented order
+                sop = P.setup_split_optim_problem(pr, g, sp_["interval_size"], kw.get("skip_nodes", []), kw.get("fix_time_window"))
+            else:
+                sop = P.setup_split_optim_problem(pr, g, interval_size=sp_["interval_size"], **kw)
             self.probes["split_desk"] += 1
             return merge_split(sop), sop
-        op = P.setup_optim_problem(pr, g, **kw)
+        if positional:
+            # (prices, timegrid, costs_only, skip_nodes, fix_time_window)
+            op = P.setup_optim_problem(pr, g, False, kw.get("skip_nodes", []), kw.get("fix_time_window"))
+        else:
+            op = P.setup_optim_problem(pr, g, **kw)
         return op, op
 
     def __init__(self, plan):
@@ -277,6 +294,8 @@ class Desk:
         self.fixed_prev = None      # variables that were fixed in the solve that produced x_prev
         self.layout_prev = None     # what the positions of x_prev stand for
         self.grid_set = False
+        self.last_solve = None
+        self.x_raw = None
 
     def fault(self, k):
         self.faults[k] = self.faults.get(k, 0) + 1
@@ -316,7 +335,7 @@ class Desk:
         if isinstance(res, str):
             self.events.append(("init", "solve:" + res))
             return False
-        self.accept(res, op, 0)
+        self.accept(res, op, 0, op_obj=sop)
         self.events.append(("init", canon.digest_canon({"v": float(res.value)}, nd=5)))
         return True
 
@@ -330,7 +349,7 @@ class Desk:
             d.setdefault(int(i_), []).append("|".join(row))
         return {k_: tuple(sorted(v_)) for k_, v_ in d.items()}
 
-    def accept(self, res, op, curve, fixed=None):
+    def accept(self, res, op, curve, fixed=None, op_obj=None):
         self.fixed_prev = fixed
         self.layout_prev = self.layout(op)
         x = np.array(res.x, dtype=float)
@@ -338,6 +357,8 @@ class Desk:
             if abs(x[i] - round(x[i])) < 1e-6:
                 x[i] = round(x[i])
         self.x_prev = x
+        self.x_raw = np.array(res.x, dtype=float)     # the oracle's own copy of the solution as it was returned
+        self.last_solve = (op_obj if op_obj is not None else op, res, curve)   # what the desk keeps: problem, result object, curve
         self.v_prev = float(res.value)
         self.x_is_opt_for = curve
         self.stats["accepted"] += 1
@@ -374,6 +395,7 @@ class Desk:
             self.x_prev = np.array(json.loads(xs), dtype=float)
             self.fix_dict = {}
             self.grid_set = False
+            self.last_solve = None
             self.fault("restart")
         if tk["feed"] in ("drop", "dup", "stale"):
             self.fault("feed_" + tk["feed"])
@@ -388,6 +410,19 @@ class Desk:
         # --- the solution the desk fixes to
         x_fix = self.x_prev.copy()
         x_kind = tk.get("x_source", "solution")
+        x_oracle = None
+        if tk.get("report_first") and x_kind == "solution" and self.last_solve is not None:
+            # the desk draws up the report for the solve it holds and only then reads x from the result object; the oracle
+            # compares with its own copy taken when the result was returned
+            sop_, res_, cv_ = self.last_solve
+            try:
+                eao.io.extract_output(P, sop_, res_, self.B.prices(plan["curves"][cv_]))
+            except Exception as e:
+                self.events.append((k, "report-raise:%s@%s" % canon.exc_sig(e)))
+            self.fault("report_before_reading_x")
+            x_fix = np.array(res_.x, dtype=float)
+            x_oracle = self.x_raw.copy()
+            x_kind = "reported"
         # --- window
         if tk["form"] == "date":
             I = specs.mat(tk["date"])
@@ -455,6 +490,14 @@ class Desk:
                 else:
                     x_fix = np.array(rs.x, dtype=float)
                     self.probes["x_from_slp"] += 1
+                    if tk.get("report_first"):
+                        x_oracle = x_fix.copy()
+                        try:
+                            eao.io.extract_output(P, slp, rs, pr)
+                        except Exception as e:
+                            self.events.append((k, "report-raise:%s@%s" % canon.exc_sig(e)))
+                        self.fault("report_before_reading_x")
+                        x_fix = np.array(rs.x, dtype=float)     # read from the result object after the report
             except Exception:
                 x_kind = "solution"
         if len(x_fix) < n:
@@ -474,6 +517,8 @@ class Desk:
         else:
             fx = {"I": I, "x": x_fix}
         x_ref = np.asarray(x_fix, dtype=float).copy()
+        if x_oracle is not None and not tk.get("x_dtype") and len(x_oracle) == len(x_ref):
+            x_ref = x_oracle      # "its previous value" is the value the solution had when it was returned
         garg = g
         if tk["grid_arg"] == "none":
             if not self.grid_set:
@@ -483,7 +528,9 @@ class Desk:
             if tk["form"] == "date":
                 self.probes["none_grid_date_form"] += 1
         try:
-            op, sop = self.setup(P, pr, garg, fix_time_window=fx, **skw)
+            op, sop = self.setup(P, pr, garg, positional=bool(tk.get("positional")), fix_time_window=fx, **skw)
+            if tk.get("positional"):
+                self.fault("positional_call")
         except Exception as e:
             et, fr = canon.exc_sig(e)
             self.events.append((k, "setup-raise:%s@%s" % (et, fr)))
@@ -634,7 +681,7 @@ class Desk:
         self.stats["liveness_checked"] += 1
         if x_kind in ("solution", "longer", "slp") and not tk.get("skip_nodes"):
             # (a tick with skipped nodal restrictions solves a relaxation: the desk looks at it but keeps its solution)
-            self.accept(res, op, tk["curve"], fixed.copy())
+            self.accept(res, op, tk["curve"], fixed.copy(), op_obj=sop)
         self.events.append((k, canon.digest_canon({"v": float(res.value), "nfix": int(fixed.sum())}, nd=5)))
 
     def reach(self, m, fixed, W, tk, x_kind):
@@ -735,7 +782,7 @@ def simplify_candidates(plan):
             c["world"]["portfolios"][P]["assets"] = [x for x in assets if x != a]
             yield c
     for i, tk in enumerate(plan["ticks"]):
-        for k in ("solver_fault", "restart", "x_source", "reuse_dict", "lo", "steps", "skip_nodes", "empty", "soft_solve", "x_dtype", "between"):
+        for k in ("solver_fault", "restart", "x_source", "reuse_dict", "lo", "steps", "skip_nodes", "empty", "soft_solve", "x_dtype", "between", "positional", "report_first"):
             if tk.get(k):
                 c = copy.deepcopy(plan)
                 c["ticks"][i].pop(k)
